@@ -102,11 +102,20 @@ def run(ctx):
     if n == 0:
         ctx.ob("R2", "mismatch-error|missing", site.loc(), "no rejection of a type-for-role mismatch (delegation_name != untrusted['signed']['type']) was found", False)
 
+    # ---- "well-formed delegating metadata" must mean the schema, no more: a checker that rejects
+    # more would switch the type comparison off for schema-valid metadata (C14's rule set)
+    from . import c14
+
+    c14.run(ctx.sub("DEP-C14"))
+
     # ---- R3: junk never changes the counted set (C02's decision table)
     from .c02 import ATOMS, cube_of, justified_skip, spec
     from .vs import VSModel
 
     m = VSModel(eng)
+    if m.loop_base != m.sigmap:
+        ctx.note("R3 not evaluated: verify_signable does not iterate the signature map (C02's decision table is undefined for this shape)")
+        return
     unjust = 0
     for bp in m.body:
         if bp.kind == "raise":
